@@ -33,6 +33,24 @@ def positions(opcount, rng, per_pair, exhaustive_cap=0):
     return pos
 
 
+def hot_positions(hot, rng, per_call):
+    """Positions that fall inside the rare paths (oversize-batch Write, OpenTransaction, transaction write/commit):
+    one fault at the first create/sync of each table or manifest touched there, plus a sample of the rest."""
+    pos = []
+    for call, lst in sorted((hot or {}).items()):
+        firsts, seen = [], set()
+        for p in lst:
+            kind, ft, _ = p.split(":")
+            if kind in ("create", "sync", "setmeta", "open") and (kind, ft) not in seen:
+                seen.add((kind, ft))
+                firsts.append(p)
+        rest = [p for p in lst if p not in firsts]
+        rng.shuffle(rest)
+        for p in firsts + rest[:max(0, per_call - len(firsts))]:
+            pos.append("%s:%d" % (p, rng.choice([1, 1, 0])))
+    return pos
+
+
 def fault_runs(ctx, nseeds, nsteps, per_pair, hang_s, exhaustive_cap=0, nkeys=16):
     exe = build("seqdb")
     rng = random.Random(ctx.seed)
@@ -45,6 +63,9 @@ def fault_runs(ctx, nseeds, nsteps, per_pair, hang_s, exhaustive_cap=0, nkeys=16
         refs.append(ref)
         for f in positions(ref.get("opcount") or {}, rng, per_pair, exhaustive_cap):
             jobs.append((seed, f))
+        for f in hot_positions(ref.get("hot"), rng, 6 if not exhaustive_cap else 30):
+            if (seed, f) not in jobs:
+                jobs.append((seed, f))
 
     def drive(job):
         seed, f = job
